@@ -83,6 +83,13 @@ class Scheduler:
                 return me
             return nxt
         st = self.strategy
+        if label == "sleep":
+            # the code under test waits for somebody else: somebody else runs
+            if st[0] in ("forced", "forced2") and st[1] in others:
+                return st[1]
+            if st[0] == "pct":
+                return max(others, key=lambda i: self.prio[i])
+            return self.rng.choice(others) if self.rng is not None else others[0]
         if st[0] == "rw":
             if self.rng.random() < st[1]:
                 return self.rng.choice(others)
@@ -230,6 +237,9 @@ def res_class(r):
 class SchedRun:
     _sch = None
     _times = {}
+    _busy = {}
+    _cur_step = {}
+    _slept = set()
     _node_counter = 0
     _lazy = []
 
@@ -342,8 +352,16 @@ class SchedRun:
             sch = self._sch
             return sch.step if sch is not None else 0
 
+        busy = self._busy
+
+        def lock_busy_since(n0):
+            me = threading.get_ident()
+            return any(t == me and pth.endswith(".lock") for (t, pth) in FS.excl_busy[n0:])
+
         def run():
             t0 = now()
+            n0 = len(FS.excl_busy)
+            self._cur_step[node] = 0
             s = st if st is not None else opener()
             self._lazy.append(s) if st is None else None
             if then is None:
@@ -351,20 +369,25 @@ class SchedRun:
                     return first(s)
                 finally:
                     times[(node, 0)] = (t0, now())
+                    busy[(node, 0)] = lock_busy_since(n0)
             try:
                 r1 = ("ok", first(s))
             except Exception as e:  # noqa: BLE001 - outcome of the first request
                 r1 = ("exc", e)
             t1 = now()
             times[(node, 0)] = (t0, t1)
+            busy[(node, 0)] = lock_busy_since(n0)
             if self._sch is not None:
                 self._sch.yield_point("step-boundary")
                 t1 = now()
+            n0 = len(FS.excl_busy)
+            self._cur_step[node] = 1
             try:
                 r2 = ("ok", then(s))
             except Exception as e:  # noqa: BLE001
                 r2 = ("exc", e)
             times[(node, 1)] = (t1, now())
+            busy[(node, 1)] = lock_busy_since(n0)
             return ("seq", r1, r2)
 
         return run
@@ -566,9 +589,27 @@ class SchedRun:
             first = sc[1] if sc[0] in ("forced", "forced2") else (max(range(n), key=lambda i: sch.prio[i]) if sc[0] == "pct" else srng.randrange(n))
         FS.hook = lambda kind, paths, mut: sch.yield_point(kind)
         FS.active = True
+        # time.sleep() in the code under test takes no wall time here: the sleeper hands the
+        # baton to another node (retry / back-off loops around locks)
+        import time as _time
+
+        real_sleep = _time.sleep
+        self._slept = set()
+
+        def sim_sleep(secs):
+            me = sch.ids.get(threading.get_ident())
+            if me is None:
+                return real_sleep(secs)
+            self._slept.add((me, self._cur_step.get(me, 0)))
+            self.count("simulated_sleeps")
+            sch.yield_point("sleep")
+
+        _time.sleep = sim_sleep
         tracer = make_tracer(sch) if plan["mode"] == "threads" else None
         self._sch = sch
         self._times = {}
+        self._busy = {}
+        self._cur_step = {}
         self._node_counter = 0
         fns = [self.op_fn(stores[i], plan["ops"][i], pre_state, opener=lambda: open_store(plan["backend"], work)) for i in range(n)]
         try:
@@ -576,6 +617,9 @@ class SchedRun:
         finally:
             FS.active = False
             FS.hook = None
+            _time.sleep = real_sleep
+        # steps during which an exclusive create of a *.lock file failed at least once
+        lock_busy = {sk for sk, b in self._busy.items() if b}
         for st in {id(s): s for s in list(stores) + list(self._lazy) if s is not None}.values():
             close_store(st)
         del stores
@@ -601,10 +645,15 @@ class SchedRun:
         if self.prop == "C09":
             return self.git_view(plan, work, got, sch, recorded)
 
+        waited_ok = []
+
         def viol(cls, detail, overlapping=None):
             sg = dict(label, oracle="C05." + cls)
             if overlapping is not None:
                 sg["overlapping"] = overlapping
+            # some acknowledged request had found the lock held by somebody else (and went on
+            # instead of being refused)
+            sg["acknowledged_after_lock_busy"] = bool(waited_ok)
             self.violations.append({"prop": "C05", "oracle": "C05." + cls, "sig": sg, "step": None,
                                     "detail": ("%s | ops=%s lazy_open=%s results=%s switches=%s" % (detail, [(o["op"], o["name"], o.get("cond"), ("then", o["then"]["op"], o["then"]["name"]) if o.get("then") else None) for o in plan["ops"]],
                                                                                              bool(plan.get("lazy_open")), got, sch.signature[:6]))[:900]})
@@ -630,6 +679,9 @@ class SchedRun:
         if weird:
             self.count("unexpected_exceptions", len(weird))
         live = [sk for sk in sorted(sres) if sk not in locked and sk not in weird]
+        waited_ok.extend(sorted(sk for sk in lock_busy | self._slept if sk in sres and sres[sk][0] == "ok"))
+        if waited_ok:
+            self.count("acknowledged_after_lock_busy", len(waited_ok))
         times = dict(self._times)
 
         def before(x, y):
